@@ -323,6 +323,21 @@ impl<'a> Gen<'a> {
                     self.leaf(v)
                 }
             }
+            94..=95 => {
+                // a plain number over something: the reciprocal (`1 / period`)
+                let n = self.num();
+                E::Bin(Op::Div, Box::new(E::Num(n)), Box::new(self.dexpr(&v.scale(Q::int(-1)), d)))
+            }
+            96..=97 => {
+                // anything to the power zero is dimensionless
+                if v.is_zero() {
+                    let x = self.rand_dim_local();
+                    E::Pow(Box::new(self.dexpr(&x, d)), Q::int(0), false)
+                } else {
+                    let n = self.num();
+                    E::Bin(Op::Mul, Box::new(E::Num(n)), Box::new(self.dexpr(v, d)))
+                }
+            }
             _ => self.leaf(v),
         }
     }
@@ -618,6 +633,31 @@ impl<'a> Gen<'a> {
                 body = E::If(Box::new(c), Box::new(body), Box::new(other));
             }
             _ => {}
+        }
+        // every tenth body gets a polymorphic zero as a *factor* (its dimension is then a quantified variable that
+        // occurs in the return type only)
+        if self.rng.chance(1, 10) {
+            body = match self.rng.below(3) {
+                0 => E::Bin(Op::Mul, Box::new(E::Zero), Box::new(body)),
+                1 => E::Bin(Op::Div, Box::new(E::Zero), Box::new(body)),
+                _ => E::Bin(Op::Mul, Box::new(body), Box::new(E::Zero)),
+            };
+        }
+        // every tenth function compares two parameters with == / != and does nothing else with them (their common
+        // type is then a quantified variable without a Dim bound)
+        if np >= 2 && self.rng.chance(1, 10) {
+            let (x, y) = (E::Var(pnames[0].to_string()), E::Var(pnames[1].to_string()));
+            let c = E::Cmp(if self.rng.chance(1, 2) { Cmp::Eq } else { Cmp::Ne }, Box::new(x.clone()), Box::new(y.clone()));
+            self.last_intents = vec![];
+            self.locals = vec![];
+            let body = if np == 2 || self.rng.chance(1, 2) {
+                E::If(Box::new(c), Box::new(x), Box::new(y))
+            } else {
+                let z = E::Var(pnames[2].to_string());
+                let k = self.num();
+                E::If(Box::new(c), Box::new(E::Bin(Op::Mul, Box::new(E::Num(k)), Box::new(z.clone()))), Box::new(z))
+            };
+            return S::Fn { name, tpars: vec![], params, ret: None, body };
         }
         let locals = self.locals.clone();
         for (pn, t) in &locals {
